@@ -560,6 +560,14 @@ impl Engine {
                     m.push_str(&format!("  t{} {} {}\n", t, op_name(*op), Self::site_str(&st, *site)));
                 }
             }
+            if let Ok(f) = std::env::var("MAYVERIF_TRACE_FILE") {
+                // debugging aid: the complete step log of this execution
+                let mut out = String::new();
+                for (t, site, op) in st.log.iter() {
+                    out.push_str(&format!("t{} {} {}\n", t, op_name(*op), Self::site_str(&st, *site)));
+                }
+                let _ = std::fs::write(f, out);
+            }
             let b = m.as_bytes();
             let n = b.len().min(MSG_CAP);
             s.msg[..n].copy_from_slice(&b[..n]);
